@@ -47,3 +47,20 @@ sv15_t verif_tensordot_lhs_reshape(sv_t lhs, sv_t rhs, svi_t sum_axes) { return 
 // ---- kron
 sv16_t verif_kron_lhs_reshape(sv_t lhs, nm_size_t rhs_dim) { return ix::kron_lhs_reshape(lhs,cd_t(rhs_dim)); }
 sv_t   verif_kron_dst_reshape(sv_t lhs, sv_t rhs) { return ix::kron_dst_reshape(lhs,rhs); }
+
+// ---- matmul_t::view_at element selection: slices picking row i of the (broadcast) left batch element and column j of the right one.
+//      Bounded-dim shapes give a std::variant slice element (not modelled); the fixed-rank kinds give tuples and are loop-free.
+using a2_t = nmtools_array<nm_size_t,2>;
+using a3_t = nmtools_array<nm_size_t,3>;
+using a4_t = nmtools_array<nm_size_t,4>;
+using all_t = nmtools_tuple<nm::none_t,nm::none_t>;
+using sl22_t = nmtools_tuple<nmtools_tuple<nm_size_t,all_t>, nmtools_tuple<all_t,nm_size_t>>;
+using sl33_t = nmtools_tuple<nmtools_tuple<nm_size_t,nm_size_t,all_t>, nmtools_tuple<nm_size_t,all_t,nm_size_t>>;
+using sl42_t = nmtools_tuple<nmtools_tuple<nm_size_t,nm_size_t,nm_size_t,all_t>, nmtools_tuple<all_t,nm_size_t>>;
+using sl24_t = nmtools_tuple<nmtools_tuple<nm_size_t,all_t>, nmtools_tuple<nm_size_t,nm_size_t,all_t,nm_size_t>>;
+using sl43_t = nmtools_tuple<nmtools_tuple<nm_size_t,nm_size_t,nm_size_t,all_t>, nmtools_tuple<nm_size_t,all_t,nm_size_t>>;
+sl22_t verif_matmul_slices_22(a2_t idx, a2_t l, a2_t r, a2_t shape) { return ix::matmul(idx,l,r,shape); }
+sl33_t verif_matmul_slices_33(a3_t idx, a3_t l, a3_t r, a3_t shape) { return ix::matmul(idx,l,r,shape); }
+sl42_t verif_matmul_slices_42(a4_t idx, a4_t l, a2_t r, a4_t shape) { return ix::matmul(idx,l,r,shape); }
+sl24_t verif_matmul_slices_24(a4_t idx, a2_t l, a4_t r, a4_t shape) { return ix::matmul(idx,l,r,shape); }
+sl43_t verif_matmul_slices_43(a4_t idx, a4_t l, a3_t r, a4_t shape) { return ix::matmul(idx,l,r,shape); }
